@@ -1112,3 +1112,14 @@ B('C16', 'input rows without variables filed like any other row', 'prover/omega.
   "        if df.factoid.is_false_factoid():\n            return \"UNSAT\", Contr(df.deriv)\n        elif df.factoid.is_true_factoid():\n            continue\n        insert_db(db, df)", "        insert_db(db, df)", 'C16.O10', 'solve_matrix')
 B('C15', 'the constant false encoded like an atom', 'prover/tseitin.py',
   "        elif eq_pt.rhs == false:", "        elif False:", 'C15.X12', 'constant(false)')
+B('C06', 'numerals handed to Z3 as Python numbers', 'prover/z3wrapper.py',
+  "            if T in (NatType, IntType):\n                return z3.IntVal(t.dest_number(), ctx)", "            if T in (NatType, IntType):\n                return t.dest_number()", 'C06.Z10', 'numeral-is-a-Z3-value')
+B('C06', 'equation formed between function declarations', 'prover/z3wrapper.py',
+  "            if t.arg1.get_type().is_fun():\n                # A function becomes a Z3 declaration, and == between two\n                # declarations is a Python comparison of the declarations.\n                raise Z3Exception(\"convert: equality between functions \" + repr(t))\n", "", 'C06.Z10', 'no-equation-between-declarations')
+B('C06', 'types of same-named variables not compared', 'prover/z3wrapper.py',
+  "        if var_types.setdefault(v.name, v.T) != v.T:", "        if False:", 'C06.Z11', 'one-type-per-name')
+B('C06', 'natural-number subtraction handed to SymPy', 'prover/sympywrapper.py',
+  "        if t.get_type() == NatType:\n            raise SymPyException(\"convert: subtraction of natural numbers: %s\" % str(t))\n", "", 'C06.S5', 'subtraction-not-at-nat')
+N('C06', 'same-named variables compared through a membership test', 'prover/z3wrapper.py',
+  "        if var_types.setdefault(v.name, v.T) != v.T:", "        if v.name in var_types and var_types[v.name] != v.T:",
+  more=[("            print_debug('variable %s occurs at two types' % v.name)\n            return s\n", "            print_debug('variable %s occurs at two types' % v.name)\n            return s\n        var_types[v.name] = v.T\n")])
